@@ -74,8 +74,11 @@ def gen_case(seed, i, tier, focus='default', loading=False, tag='seq'):
         variant = 'profile_pk'      # a primary key that is a reference: one more level of save-order dependencies
     if focus == 'mix':
         variant = r.choice(['car_nocascade', 'car_nocascade', 'car_nocascade', 'group_owner', 'base'])
-    return {'engine': 'seq', 'seed': rs, 'variant': variant, 'knobs': knobs,
+    case = {'engine': 'seq', 'seed': rs, 'variant': variant, 'knobs': knobs,
             'sessions': sessions, 'flush_policy': r.choice(['never', 'never', 'always', 'seeded'])}
+    if tag != 'c13':
+        case['go_on_after_c13'] = True
+    return case
 
 
 COMPONENTS = {
